@@ -311,6 +311,8 @@ def text_violation(case, rec, k):
         return 'Tableau.valid/premature', f'a premature tableau reports valid={o["valid"]} invalid={o["invalid"]}'
     if not o['has_arg'] and (o['valid'] is not None or o['invalid'] is not None):
         return 'Tableau.valid/no-argument', f'a tableau without argument reports valid={o["valid"]} invalid={o["invalid"]}'
+    if not o['has_arg'] and o.get('result') in ('Valid', 'Invalid'):
+        return 'Tableau.stats/no-argument', f"a tableau without argument publishes the verdict {o['result']!r} in stats['result']"
     if tr['res'] == 'err:ProofTimeoutError' and not o['finished']:
         return 'Tableau._check_timeout/finished', 'the timeout error left the tableau unfinished'
     stepc = [c[2] for c in tr['consults'] if c[0] == 'step']
